@@ -254,9 +254,13 @@ class CodespeedReporter(Reporter):
                     + " (%(cores)s cores, %(input_sizes)s %(extra_args)s)")
 
         # TODO: this is incomplete:
-        name = name % {'cores'       : run_id.cores_as_str,
-                       'input_sizes' : run_id.input_size_as_str,
-                       'extra_args'  : run_id.benchmark.extra_args}
+        try:
+            name = name % {'cores'       : run_id.cores_as_str,
+                           'input_sizes' : run_id.input_size_as_str,
+                           'extra_args'  : run_id.benchmark.extra_args}
+        except (ValueError, TypeError, KeyError):
+            # a codespeed_name that is not a format string is used as it is
+            pass
 
         result["benchmark"] = name
 
